@@ -797,7 +797,7 @@ def partitions(tier):
                           params=dict(scenario=sc)))
     for key in ("a", "snep"):
         parts.append(dict(name="lifecycle:" + key, fn="lifecycle",
-                          params=dict(key=key, k=3 if tier == "quick" else 5)))
+                          params=dict(key=key, k=3 if tier == "quick" else 4)))
     return parts
 
 
@@ -811,7 +811,7 @@ MUST_REACH = ["history-end", "EAGAIN", "bind-addr-ok", "bind-addr:EFAULT",
               "lifecycle-end"]
 BOUNDS = {
     "quick": "histories of 1 fixed operation (15 kinds) + up to 2 picked from 11 (socket+bind none/address/name for the three socket kinds, second bind of a bound socket, listen, close, datagram from a second controller, resolve and connect-by-name through collect()/dispatch()), addresses symbolic inside windows {-1..1, 3..5, 31..33, 63..64}; bind(address) with the address symbolic over -1..64 after four table prefixes (fresh, populated, after close, all 48 bindable addresses taken) for each socket kind, bound twice and re-bound after close; all 32 dynamic / 16 named addresses taken, one closed, then a suffix of up to 2 operations; datagrams with symbolic DSAP 0..63, SSAP 0..63 and payload octets (lengths 0..3, one or two datagrams) against a populated table; named listener + accepted connection closed in any order with up to 3 operations; names from a fixed alphabet of 8 (+ 17 filler names), given as bytes or text",
-    "thorough": "as quick with histories of 2 fixed (26 x 7) + up to 2 picked operations, suffixes of up to 3/4 operations after exhaustion and up to 5 in the listener life cycle",
+    "thorough": "as quick with histories of 2 fixed (26 x 7) + up to 2 picked operations, suffixes of up to 3/4 operations after exhaustion and up to 4 in the listener life cycle",
 }
 OUTSIDE = ["operations on closed sockets", "service names outside the alphabet (the name syntax check is a regular expression on concrete bytes)",
            "address windows {-1..1, 3..5, 30..33, 62..64} instead of -1..64 inside generic histories (the full range is swept after the targeted prefixes)",
